@@ -15,6 +15,7 @@ Expressions / statements are nested lists, see `Ctx.expr` / `Ctx.stmt`.
 from __future__ import annotations
 
 import inspect
+from typing import Literal
 
 import pyteal as pt
 from pyteal import abi
@@ -36,7 +37,7 @@ ABI_TYPES = {
     "(uint64,uint8)": abi.Tuple2[abi.Uint64, abi.Uint8],
     "(bool,uint64,bool)": abi.Tuple3[abi.Bool, abi.Uint64, abi.Bool],
     "uint64[]": abi.DynamicArray[abi.Uint64],
-    "uint16[3]": abi.StaticArray[abi.Uint16, 3],
+    "uint16[3]": abi.StaticArray[abi.Uint16, Literal[3]],
     "account": abi.Account,
     "asset": abi.Asset,
     "application": abi.Application,
